@@ -130,6 +130,8 @@ int      sched_spawn(vthread_main_t fn, void* arg, bool reuse_id);   // returns 
 void     sched_join(int vt_index);                                   // blocks until DONE
 bool     sched_is_done(int vt_index);
 void     sched_barrier(int barrier_id, int parties);                 // blocks until `parties` vthreads arrived
+bool     sched_wait(uint64_t key);                                   // harness-level wait for sched_notify(key); false = gave up because nothing else could run
+void     sched_notify(uint64_t key);
 void     sched_os_point(int kind);                                   // preemption point right before a simulated OS call takes effect
 void     sched_harness_point(int what);                              // preemption point between API calls
 void     sched_call_begin();                                         // reset the per-call step budget
